@@ -31,6 +31,13 @@ ADMIN_HEADERS = {
 }
 
 
+def _unquote(path):
+    if '%' not in path:
+        return path
+    from urllib.parse import unquote_to_bytes
+    return unquote_to_bytes(path).decode('latin-1')
+
+
 class Response(object):
     __slots__ = ('status', 'headers', 'body', 'json')
 
@@ -174,7 +181,9 @@ class World(object):
         environ = {
             'REQUEST_METHOD': method,
             'SCRIPT_NAME': '',
-            'PATH_INFO': path_info,
+            # a WSGI server hands the application the percent-DECODED
+            # path (bytes shown as latin-1), PEP 3333
+            'PATH_INFO': _unquote(path_info),
             'QUERY_STRING': qs,
             'SERVER_NAME': 'placement.sim',
             'SERVER_PORT': '80',
